@@ -58,6 +58,7 @@ class Exploration:
         self.exhausted = True
         self.maybe_infeasible_paths = 0
         self.events = {}
+        self.contract_cut_models = {}
 
     def add(self, r, keep_witness):
         st = r["stats"]
@@ -69,6 +70,10 @@ class Exploration:
         oc = r["outcome"]
         if oc == "infeasible":
             self.infeasible += 1
+            for ev in r.get("events") or []:
+                if ev["kind"].startswith("contract_cut:"):
+                    self.events[ev["kind"]] = self.events.get(ev["kind"], 0) + 1
+                    self.contract_cut_models.setdefault(ev["kind"], ev.get("model"))
             return
         if oc != "done":
             self.problems.append(dict(outcome=oc, summary=r["summary"], prefix=r["prefix"], trace=r.get("trace")))
